@@ -60,7 +60,24 @@ func (gi *gitlabImporter) ImportAll(ctx context.Context, repo *cache.RepoCache, 
 	go func() {
 		defer close(out)
 
-		for issue := range Issues(ctx, gi.client, gi.conf[confKeyProjectID], since) {
+		// The lister reports on out: on every way out of this function, stop it and let it finish
+		// before out is closed.
+		ctx, cancel := context.WithCancel(ctx)
+		listingFailed := func(err error) {
+			if ctx.Err() != nil {
+				// we stopped it ourselves
+				return
+			}
+			out <- core.NewImportError(fmt.Errorf("issue listing: %v", err), "")
+		}
+		issues := Issues(ctx, gi.client, gi.conf[confKeyProjectID], since, listingFailed)
+		defer func() {
+			cancel()
+			for range issues {
+			}
+		}()
+
+		for issue := range issues {
 
 			b, err := gi.ensureIssue(repo, issue)
 			if err != nil {
